@@ -119,16 +119,21 @@ fn normalise_newlines(s: &str) -> String {
 enum Ctx {
     Data,
     Rcdata,
+    /// RCDATA, directly after an end-tag opener that turns out not to be the appropriate end tag
+    /// ("x</t" + reference under last start tag "title"): the reference still has to be resolved
+    RcdataAfterBogusEndTag,
     AttrDq,
     AttrSq,
     AttrUnq,
 }
 const CTXS: [Ctx; 5] = [Ctx::Data, Ctx::Rcdata, Ctx::AttrDq, Ctx::AttrSq, Ctx::AttrUnq];
+const CTXS_EXTRA: [Ctx; 1] = [Ctx::RcdataAfterBogusEndTag];
 
 fn build(ctx: Ctx, body: &str) -> Case {
     let (input, start, last) = match ctx {
         Ctx::Data => (format!("x{body}"), StartState::Data, None),
         Ctx::Rcdata => (format!("x{body}"), StartState::Rcdata, Some("title".to_string())),
+        Ctx::RcdataAfterBogusEndTag => (format!("x</t{body}"), StartState::Rcdata, Some("title".to_string())),
         Ctx::AttrDq => (format!("<a b=\"x{body}\">"), StartState::Data, None),
         Ctx::AttrSq => (format!("<a b='x{body}'>"), StartState::Data, None),
         Ctx::AttrUnq => (format!("<a b=x{body}>"), StartState::Data, None),
@@ -141,7 +146,7 @@ fn direct_expectation(ctx: Ctx, body: &str, t: &Table) -> Option<Vec<RTok>> {
     // body = "&" + after
     let after = &body[1..];
     let unsafe_chars: &[char] = match ctx {
-        Ctx::Data | Ctx::Rcdata => &['<', '&', '\0'],
+        Ctx::Data | Ctx::Rcdata | Ctx::RcdataAfterBogusEndTag => &['<', '&', '\0'],
         Ctx::AttrDq => &['"', '&', '\0'],
         Ctx::AttrSq => &['\'', '&', '\0'],
         Ctx::AttrUnq => &['&', '\0', ' ', '\t', '\n', '\r', '\x0C', '>', '"', '\'', '<', '=', '`'],
@@ -149,7 +154,7 @@ fn direct_expectation(ctx: Ctx, body: &str, t: &Table) -> Option<Vec<RTok>> {
     if after.contains(unsafe_chars) {
         return None;
     }
-    let in_attr = !matches!(ctx, Ctx::Data | Ctx::Rcdata);
+    let in_attr = !matches!(ctx, Ctx::Data | Ctx::Rcdata | Ctx::RcdataAfterBogusEndTag);
     let text = match resolve(after, in_attr, t) {
         None => normalise_newlines(&format!("x{body}")),
         Some((rep, used)) => {
@@ -161,6 +166,7 @@ fn direct_expectation(ctx: Ctx, body: &str, t: &Table) -> Option<Vec<RTok>> {
     };
     Some(match ctx {
         Ctx::Data | Ctx::Rcdata => vec![RTok::Chars(text), RTok::Eof],
+        Ctx::RcdataAfterBogusEndTag => vec![RTok::Chars(format!("x</t{}", &text[1..])), RTok::Eof],
         _ => vec![RTok::Start { name: "a".into(), attrs: vec![("b".into(), text)], self_closing: false, dup: false }, RTok::Eof],
     })
 }
@@ -227,7 +233,10 @@ fn check_body(ctx: Ctx, body: &str, t: &Table, st: &mut Stats) {
 // the non-ASCII followers are letters and digits only in Unicode's sense (superscript two, vulgar
 // fraction, Arabic-Indic digit, fullwidth digit and letter, Roman numeral): the attribute exception
 // is about ASCII alphanumerics and '=' only
-const FOLLOWERS: [&str; 22] = ["", ";", "=", "0", "z", "Z", " ", "\n", "\r", "<", "&", "\"", "'", "é", "#", "\u{b2}", "\u{bd}", "\u{663}", "\u{ff11}", "\u{ff21}", "\u{2167}", "9"];
+const FOLLOWERS: [&str; 29] = ["", ";", "=", "0", "z", "Z", " ", "\n", "\r", "<", "&", "\"", "'", "é", "#", "\u{b2}", "\u{bd}", "\u{663}", "\u{ff11}", "\u{ff21}", "\u{2167}", "9",
+    // characters above U+00FF whose low byte is an ASCII digit, hex letter, ';' or '=' (a truncating cast
+    // would take them for that character)
+    "\u{131}", "\u{141}", "\u{161}", "\u{13b}", "\u{13d}", "\u{1f631}", "\u{130}"];
 const FOLLOWERS_QUICK: [&str; 7] = ["", ";", "=", "z", "0", " ", "<"];
 
 fn name_variants(name: &str, t: &Table) -> Vec<String> {
@@ -336,6 +345,11 @@ pub fn run(args: &Args) -> (Meta, Stats) {
                     for ctx in CTXS {
                         check_body(ctx, &body, &t, st);
                     }
+                    if f.is_empty() || *f == ";" {
+                        for ctx in CTXS_EXTRA {
+                            check_body(ctx, &body, &t, st);
+                        }
+                    }
                     st.distinct.insert(hash_str(&body));
                 }
             }
@@ -355,7 +369,10 @@ pub fn run(args: &Args) -> (Meta, Stats) {
                 st.count("numeric_values");
                 let forms = [format!("&#{v}"), format!("&#x{v:x}"), format!("&#X{v:X}")];
                 for (k, form) in forms.iter().enumerate() {
-                    let terms: &[&str] = if quick && !interesting(v) { &[";", ""] } else { &[";", "", "z", " ", "<"] };
+                    // (the last four: characters above U+00FF whose low byte is an ASCII digit or hex letter)
+                    const COLLIDING: [&str; 4] = ["\u{131}", "\u{141}", "\u{161}", "\u{1f631}"];
+                    let rotating = [";", "", COLLIDING[(v as usize + k) % 4]];
+                    let terms: &[&str] = if quick && !interesting(v) { &rotating } else { &[";", "", "z", " ", "<", "\u{131}", "\u{141}", "\u{161}", "\u{1f631}", "\u{130}"] };
                     for term in terms {
                         let body = format!("{form}{term}");
                         let ctx = if quick { CTXS[(v as usize + k) % 5] } else { CTXS[(v as usize + k) % 5] };
@@ -416,8 +433,8 @@ pub fn run(args: &Args) -> (Meta, Stats) {
             }
             for b in &bodies {
                 for f in ["", "z", " "] {
-                    for ctx in CTXS {
-                        check_body(ctx, &format!("{b}{f}"), &t, st);
+                    for ctx in CTXS.iter().chain(CTXS_EXTRA.iter()) {
+                        check_body(*ctx, &format!("{b}{f}"), &t, st);
                     }
                     st.distinct.insert(hash_str(&format!("{b}{f}")));
                 }
